@@ -11,7 +11,7 @@ import (
 func init() {
 	props["C07"] = func(r *Report) {
 		c07(r)
-		r.Guard("C07.R6", "every lock taken is released on every exit: connsMu and the other core locks (a lock left held makes Close or Serve block for ever)", func() { lockPairRule(r, ""); goCaptureRule(r, "") })
+		r.Guard("C07.R6", "every lock taken is released on every exit: connsMu and the other core locks (a lock left held makes Close or Serve block for ever)", func() { lockPairRule(r, ""); goCaptureRule(r, ""); goBlockRule(r, "") })
 	}
 	floors["C07"] = map[string]int{"C07.R1": 6, "C07.R2": 4, "C07.R3": 4, "C07.R4": 2, "C07.R5": 4, "C07.R6": 1}
 }
@@ -229,6 +229,53 @@ func c07(r *Report) {
 			}
 		}
 		r.Decide("path", "(*M.Proxy).readRequest: select arm on p.closing returns errClose", found, "an idle or half-read connection is released on shutdown", "the request reader does not watch p.closing (or its arm does not return errClose): idle connections keep Close waiting until their timeout", pos)
+		// the select is only reached promptly if the blocking read happens on another
+		// goroutine: http.ReadRequest is called from a goroutine literal, never on the
+		// goroutine that selects
+		inline := 0
+		for _, c := range calls(rd, "net/http.ReadRequest") {
+			inline++
+			pos = c.Pos()
+		}
+		spawned := 0
+		for _, in := range instrs(rd) {
+			if gs, ok := in.(*ssa.Go); ok {
+				if t := goTarget(gs); t != nil {
+					spawned += len(calls(t, "net/http.ReadRequest"))
+				}
+			}
+		}
+		r.Decide("path", "(*M.Proxy).readRequest: the blocking read runs on its own goroutine", inline == 0 && spawned > 0, "http.ReadRequest is called in a goroutine literal; the reader itself only selects", "http.ReadRequest is called on the goroutine that is meant to select on p.closing: an idle connection is not released on shutdown until its read deadline expires, and Close waits that long", pos)
+		// Closing() reports the state of the channel: true on the receive arm, false on default
+		if cf := r.W.Fn("", "Proxy.Closing"); cf != nil && cf.Blocks != nil {
+			okPoll := false
+			for _, in := range instrs(cf) {
+				sel, ok := in.(*ssa.Select)
+				if !ok || sel.Blocking || len(sel.States) != 1 {
+					continue
+				}
+				if ld, ok := sel.States[0].Chan.(*ssa.UnOp); !ok || !isFieldRef(ld.X, M, "Proxy", "closing") {
+					continue
+				}
+				arm := selectArmBlock(sel, 0)
+				if arm == nil {
+					continue
+				}
+				clsT, _, okT := returnBoolsFrom(arm)
+				okPoll = okT && len(clsT) == 1 && clsT[true]
+				for _, ret := range returns(cf) {
+					if edgeReaches(arm, ret.Block()) {
+						continue
+					}
+					if b, isB := constBool(ret.Results[0]); !isB || b {
+						okPoll = false
+					}
+				}
+			}
+			r.Decide("path", "(*M.Proxy).Closing: true exactly when the closing channel is closed", okPoll, "non-blocking receive: the receive arm returns true, the default arm false", "Closing() does not report the closing channel's state: the accept loop and new handlers keep serving after shutdown began (or refuse before it)", cf.Pos())
+		} else {
+			r.Undecided("(*M.Proxy).Closing", "UNRESOLVED")
+		}
 		// accept loop: Closing() tested before every Accept
 		gs := G(serve)
 		accept := calls(serve, "(net.Listener).Accept")
@@ -417,4 +464,44 @@ func c07(r *Report) {
 			}
 		}
 	})
+}
+
+// returnBoolsFrom collects the constant boolean results of the returns
+// reachable from b; ok is false when a reachable return's result is not constant.
+func returnBoolsFrom(b *ssa.BasicBlock) (map[bool]bool, int, bool) {
+	out := map[bool]bool{}
+	n, ok := 0, true
+	for _, ret := range returns(b.Parent()) {
+		if !edgeReaches(b, ret.Block()) {
+			continue
+		}
+		n++
+		if v, isB := constBool(ret.Results[0]); isB {
+			out[v] = true
+		} else {
+			ok = false
+		}
+	}
+	return out, n, ok && n > 0
+}
+
+func edgeReaches(from, to *ssa.BasicBlock) bool {
+	seen := map[*ssa.BasicBlock]bool{}
+	var walk func(b *ssa.BasicBlock) bool
+	walk = func(b *ssa.BasicBlock) bool {
+		if b == to {
+			return true
+		}
+		if seen[b] {
+			return false
+		}
+		seen[b] = true
+		for _, s := range b.Succs {
+			if walk(s) {
+				return true
+			}
+		}
+		return false
+	}
+	return walk(from)
 }
